@@ -101,37 +101,63 @@ ServiceSheets(mid) ==
      Svc("r2", "c", "a", "mode 2", Num(375, 1), Num(-15, 1), B, <<"r1">>, <<mid>>, "yes", B)>>,
    <<Svc("1", "a", "c", "mode 1", Num(5, -1), Num(125, 2), Num(76, 0), <<"2", "3">>, <<>>, "", Num(4, -2)),
      Svc("2", "c", "a", "", Num(625, 1), B, B, <<>>, <<>>, "Yes", Num(1, -2)),
-     Svc("3", "a", "b", "mode 1", Num(5, -1), Num(0, 0), B, <<"1">>, <<>>, "no", Num(1, -2))>>}
+     Svc("3", "a", mid, "mode 1", Num(5, -1), Num(0, 0), B, <<"1">>, <<>>, "no", Num(1, -2))>>}
 ServiceWorkbooks ==
   {Mk(Shapes[s], f, combo, svc) : s \in {2, 4}, f \in {[a |-> "ROADM", b |-> "ROADM", c |-> "ROADM"]},
                                   combo \in {<<0, 0, FALSE>>, <<1, 1, FALSE>>}, svc \in ServiceSheets("b")}
   \cup {Mk(Shapes[6], [a |-> "ROADM", b |-> "ILA", c |-> "ROADM", d |-> "ROADM"], <<0, 0, FALSE>>, svc) : svc \in ServiceSheets("d")}
 
-Workbooks == ValidWorkbooks \cup InvalidWorkbooks \cup ServiceWorkbooks
+\* inconsistent rows that no documented rule names: FUSED site of degree 1 / 3, Eqpt row on a FUSED site
+RawMk(sh, f, rows, v) == [nodes |-> [i \in 1..Len(SiteSeq(sh)) |-> [city |-> SiteSeq(sh)[i], type |-> f[SiteSeq(sh)[i]]]],
+                          links |-> LinksOf(sh, v), eqpt |-> rows, roadms |-> <<>>, services |-> <<>>]
+InconsistentWorkbooks ==
+  {RawMk(Shapes[1], [a |-> "ROADM", b |-> "FUSED"], <<>>, 0),
+   RawMk(Shapes[3], [a |-> "FUSED", b |-> "ILA", c |-> "ROADM", d |-> "ROADM"], <<>>, 2),
+   RawMk(Shapes[5], [a |-> "FUSED", b |-> "ROADM", c |-> "ROADM", d |-> "ROADM"], <<>>, 0),
+   RawMk(Shapes[7], [a |-> "ROADM", b |-> "ROADM", c |-> "FUSED", d |-> "ROADM"], <<>>, 1),
+   RawMk(Shapes[2], [a |-> "ROADM", b |-> "FUSED", c |-> "ROADM"], <<Row("b", "c", AmpA, AmpN)>>, 0),
+   RawMk(Shapes[6], [a |-> "ROADM", b |-> "FUSED", c |-> "FUSED", d |-> "ROADM"], <<Row("b", "a", AmpC, AmpA), Row("a", "b", AmpA, AmpN)>>, 2)}
+Workbooks == ValidWorkbooks \cup InvalidWorkbooks \cup ServiceWorkbooks \cup InconsistentWorkbooks
 
 -----------------------------------------------------------------------------
 Init == wb \in Workbooks /\ result = <<>> /\ topo = <<>> /\ pc = "sheets"
 Convert == /\ pc = "sheets"
            /\ result' = Expected(wb)
-           /\ topo' = IF ErrorKinds(wb) = {} THEN Model(wb) ELSE <<>>
+           /\ topo' = IF ErrorKinds(wb) = {} /\ ~Inconsistent(wb) THEN Model(wb) ELSE <<>>
            /\ pc' = "done"
            /\ UNCHANGED wb
 Next == Convert
 
 \* the vocabulary: FUSED sites have degree 2 and no Eqpt row, link ends differ
-Vocabulary == ErrorKinds(wb) = {} => \A c \in Cities(wb) : DeclType(wb, c) = "FUSED" => (Degree(wb, c) \in {0, 2} /\ RowsFrom(wb, c) = {})
+Vocabulary == (ErrorKinds(wb) = {} /\ wb \notin InconsistentWorkbooks) => \A c \in Cities(wb) : DeclType(wb, c) = "FUSED" => (Degree(wb, c) \in {0, 2} /\ RowsFrom(wb, c) = {})
 \* the documented-name topology satisfies every clause of the property (clauses are satisfiable, none vacuous)
-ModelUniqueNames    == (pc = "done" /\ result.status = "ok") => UniqueNames(topo)
-ModelEndpointsExist == (pc = "done" /\ result.status = "ok") => EndpointsExist(topo)
-ModelSiteInventory  == (pc = "done" /\ result.status = "ok") => SiteInventory(wb, topo)
-ModelFibres         == (pc = "done" /\ result.status = "ok") => FibrePerDirection(wb, topo)
-ModelContinuity     == (pc = "done" /\ result.status = "ok") => Continuity(wb, topo)
-ModelAmpFaces       == (pc = "done" /\ result.status = "ok") => AmpFacesNeighbour(wb, topo)
-ModelBlankAmps      == (pc = "done" /\ result.status = "ok") => UndescribedAmpsAreBlank(wb, topo)
-ModelPerDegree      == (pc = "done" /\ result.status = "ok") => PerDegreeTargets(wb, topo)
+Ok == pc = "done" /\ result.status = "ok"
+ModelUniqueNames    == Ok => UniqueNames(topo)
+ModelEndpointsExist == Ok => EndpointsExist(topo)
+ModelSiteInventory  == Ok => SiteInventory(wb, topo, Index(topo))
+ModelFibres         == Ok => FibrePerDirection(wb, topo, Index(topo))
+ModelContinuity     == Ok => Continuity(wb, topo, Index(topo))
+ModelAmpFaces       == Ok => AmpFacesNeighbour(wb, topo, Index(topo))
+ModelBlankAmps      == Ok => UndescribedAmpsAreBlank(wb, topo, Index(topo))
+ModelPerDegree      == Ok => PerDegreeTargets(wb, topo, Index(topo))
+\* the request list the documentation describes for the Service sheet satisfies the service clauses
+ModelRequests(w) ==
+  [reqs |-> [k \in 1..Len(w.services) |->
+               LET r == w.services[k] IN
+               [id |-> r.id, source |-> "trx " \o r.src, destination |-> "trx " \o r.dst, bidir |-> FALSE, trx |-> r.trx,
+                mode |-> IF r.mode = "" THEN "~null" ELSE r.mode, spacing |-> Times1e9(r.spacing),
+                bandwidth |-> IF r.bw.t = "absent" THEN Num(0, 0) ELSE Times1e9(r.bw), nch |-> Dflt(r.nch, Null),
+                power_udbm |-> IF r.power.t = "absent" THEN -9999 ELSE r.power.m * (10 ^ (6 - r.power.s)),
+                include |-> [j \in 1..Len(r.path) |-> "roadm " \o r.path[j]],
+                hops |-> [j \in 1..Len(r.path) |-> IF r.loose \in {"", "yes", "Yes", "YES"} THEN "LOOSE" ELSE "STRICT"]]],
+   sync |-> LET ws == SelectSeq(w.services, LAMBDA r : r.disjoint # <<>>) IN
+            [k \in 1..Len(ws) |-> [id |-> ws[k].id, ids |-> <<ws[k].id>> \o ws[k].disjoint]]]
+ModelServices       == (Ok /\ wb.services # <<>>) => ServiceFailing(wb, topo, ModelRequests(wb), FALSE, 0) = {}
 \* a rejected workbook names at least one violated rule, and the mutations produce exactly one
 ErrorsAreExplained  == pc = "done" => (result.status = "error") = (ErrorKinds(wb) # {})
 MutationsAreSingle  == wb \in InvalidWorkbooks => Cardinality(ErrorKinds(wb)) = 1
 
-Emit == pc # "sheets" \/ PrintT("@@" \o ToJson([wb |-> wb, kinds |-> ErrorKinds(wb), undecided |-> Undecided(wb)]))
+InconsistentAreSo   == (wb \in InconsistentWorkbooks) = Inconsistent(wb)
+Emit == pc # "sheets" \/ PrintT("@@" \o ToJson([wb |-> wb, kinds |-> ErrorKinds(wb), undecided |-> Undecided(wb),
+                                                  inconsistent |-> Inconsistent(wb)]))
 ==============================================================================
